@@ -10,7 +10,8 @@ N_THOROUGH = 120000
 LEAN_MODULES = ["JSV.Props.C01"]
 RULE = ("the 1099 official 2020-12 cases first (expected verdicts known), then generated 2020-12 documents over the whole "
         "vocabulary with interaction-biased keyword mixes, each with 6 instances from shared pools; an operation is one "
-        "(document, instances) pair; non-trivial: the document has >= 2 keywords and the verdict vector is not constant or a "
+        "(document, instances) pair; 4 %: uniqueItems / const / enum over containers of strings that differ but concatenate to the same "
+        "character stream (pair followed by a duplicate of either member); non-trivial: the document has >= 2 keywords and the verdict vector is not constant or a "
         "reference is present; distinct = distinct operation text")
 TRUSTED = ["regular expressions: a parameter of the model; the driver's matcher is compared with Go's regexp on the pattern pool",
            "float64 arithmetic of multipleOf: exact on the generated domain (short dyadics)"]
